@@ -9,5 +9,8 @@ echo "== demo on modified worktree (expect non-zero)"
 echo "== demo on unmodified /repo (expect 0)"
 (cd $OUT && timeout 900 bash demo.sh /repo >/tmp/seed-out/$S/demo_orig.log 2>&1; echo "rc=$?"; tail -2 /tmp/seed-out/$S/demo_orig.log)
 echo "== my check $C ($T) with the patch applied to /repo (expect exit 1)"
+cp /verif/evidence/$C.json /tmp/seed-out/$S/evidence_before.json 2>/dev/null
 git -C /repo apply $OUT/patch.diff && (cd /verif && timeout 3000 ./vcheck $C --tier $T > /tmp/seed-out/$S/vcheck_$C.log 2>&1; echo "vcheck rc=$?"; grep -c "^VIOLATION" /tmp/seed-out/$S/vcheck_$C.log; grep -A1 "^VIOLATION" /tmp/seed-out/$S/vcheck_$C.log | head -4 | cut -c1-400; tail -1 /tmp/seed-out/$S/vcheck_$C.log | cut -c1-300)
+cp /verif/evidence/$C.json /tmp/seed-out/$S/evidence_with_patch.json 2>/dev/null
+cp /tmp/seed-out/$S/evidence_before.json /verif/evidence/$C.json 2>/dev/null; rm -f /verif/replay/$C-*.json
 git -C /repo checkout -- . ; git -C /repo status --short | head -3
